@@ -142,9 +142,9 @@ def extract(repo=REPO, no_cache=False, target_dir=None, log=sys.stderr):
             json.dump({"digest": digest, "repo": repo, "crates": {c: m for c, (f, m) in seen.items()},
                        "wall_s": time.time() - t0}, fh)
         os.rename(tmp, out)
-        # keep the cache small: drop all but the 6 newest fact dirs
+        # keep the cache small: drop all but the 14 newest fact dirs
         dirs = sorted(glob.glob(os.path.join(CACHE, "facts", "*")), key=os.path.getmtime, reverse=True)
-        for d in dirs[6:]:
+        for d in dirs[14:]:
             shutil.rmtree(d, ignore_errors=True)
         return out, digest, True, time.time() - t0
     finally:
